@@ -2,8 +2,10 @@ package main
 
 import (
 	"fmt"
+	"go/token"
 	"hash/fnv"
 	"strconv"
+	"strings"
 	"time"
 
 	"golang.org/x/tools/go/ssa"
@@ -25,15 +27,74 @@ func timeOfModel(sec, nsec string) time.Time {
 	return time.Unix(int64(parseBV(sec)), int64(parseBV(nsec))).UTC()
 }
 
+// locObj is the engine's *time.Location: a fixed offset east of UTC in
+// seconds (time.FixedZone).  A nil location (time.UTC, time.Local: the
+// process zone is assumed to be UTC) has offset 0.
+type locObj struct{ Off Int }
+
+func locOffset(v value) Int {
+	if p, ok := v.(*value); ok && p != nil {
+		if l, ok := (*p).(locObj); ok {
+			return l.Off
+		}
+	}
+	return mkI64(0)
+}
+
+func nativeLoc(off int64) *time.Location {
+	if off == 0 {
+		return time.UTC
+	}
+	return time.FixedZone("", int(off))
+}
+
+func layoutHasZone(layout string) bool {
+	for _, z := range []string{"MST", "Z07", "-07", "GMT"} {
+		if strings.Contains(layout, z) {
+			return true
+		}
+	}
+	return false
+}
+
+// localSec is the instant's wall-clock reading in its location, as seconds.
+func (t TimeV) localSec() Int {
+	sec, _ := t.secNsec()
+	off := locOffset(t.Loc)
+	if off.isConc() && off.signed() == 0 {
+		return sec
+	}
+	return intBinop(token.ADD, sec, off).(Int)
+}
+
 func init() {
 	parse := func(e *Exec, fn *ssa.Function, args []value) value {
 		layout := argStr(args[0])
+		var locV value
+		lo := mkI64(0)
+		if len(args) > 2 {
+			locV = args[2]
+			lo = locOffset(locV)
+			if !lo.isConc() {
+				panic(inconclusive{"time.ParseInLocation with a symbolic location"})
+			}
+		}
+		nloc := nativeLoc(lo.signed())
+		resLoc := func(t time.Time) value {
+			_, zoff := t.Zone()
+			if int64(zoff) == lo.signed() {
+				return locV
+			}
+			c := new(value)
+			*c = locObj{Off: mkI64(int64(zoff))}
+			return c
+		}
 		if s, ok := concStr(args[1]); ok {
-			t, err := time.Parse(layout, s)
+			t, err := time.ParseInLocation(layout, s, nloc)
 			if err != nil {
 				return tuple{zeroTimeV, e.newError("parsing time "+strconv.Quote(s)+" as "+strconv.Quote(layout)+": cannot parse", nil)}
 			}
-			return tuple{TimeV{Sec: mkI64(t.Unix()), Nsec: mkI64(int64(t.Nanosecond()))}, iface{}}
+			return tuple{TimeV{Sec: mkI64(t.Unix()), Nsec: mkI64(int64(t.Nanosecond())), Loc: resLoc(t)}, iface{}}
 		}
 		bs := strBytes(args[1])
 		if hasOpaque(bs) {
@@ -51,7 +112,11 @@ func init() {
 		}
 		sig += ")"
 		id := layoutID(layout)
-		okN, secN, nsN := fmt.Sprintf("tp_ok_%s_%d", id, n), fmt.Sprintf("tp_sec_%s_%d", id, n), fmt.Sprintf("tp_nsec_%s_%d", id, n)
+		if lo.signed() != 0 {
+			id += fmt.Sprintf("_z%d", lo.signed())
+			id = strings.ReplaceAll(id, "-", "m")
+		}
+		okN, secN, nsN, offN := fmt.Sprintf("tp_ok_%s_%d", id, n), fmt.Sprintf("tp_sec_%s_%d", id, n), fmt.Sprintf("tp_nsec_%s_%d", id, n), fmt.Sprintf("tp_off_%s_%d", id, n)
 		e.declUF(okN, sig+" Bool")
 		e.declUF(secN, sig+" (_ BitVec 64)")
 		e.declUF(nsN, sig+" (_ BitVec 64)")
@@ -65,37 +130,84 @@ func init() {
 		}
 		e.ufApps = append(e.ufApps,
 			ufApp{term: app(okN), args: as, eval: func(vals []string) (string, bool) {
-				_, err := time.Parse(layout, bytesOf(vals))
+				_, err := time.ParseInLocation(layout, bytesOf(vals), nloc)
 				return strconv.FormatBool(err == nil), true
 			}},
 			ufApp{term: app(secN), args: as, eval: func(vals []string) (string, bool) {
-				t, err := time.Parse(layout, bytesOf(vals))
+				t, err := time.ParseInLocation(layout, bytesOf(vals), nloc)
 				if err != nil {
 					return "", false
 				}
 				return bvLit(uint64(t.Unix()), 64), true
 			}},
 			ufApp{term: app(nsN), args: as, eval: func(vals []string) (string, bool) {
-				t, err := time.Parse(layout, bytesOf(vals))
+				t, err := time.ParseInLocation(layout, bytesOf(vals), nloc)
 				if err != nil {
 					return "", false
 				}
 				return bvLit(uint64(t.Nanosecond()), 64), true
 			}})
+		// supported layouts: acceptance, year, nanosecond and "is the zero
+		// instant" are exact functions of the value bytes (stubs_timeparse.go)
+		if defs, okT, fields, sup := tpFormula(layout, as, fmt.Sprintf("tpd%d", e.ntpdef)); sup {
+			e.ntpdef++
+			for _, d := range defs {
+				e.sol.Send(d)
+			}
+			e.assert(&Term{S: "(= " + app(okN) + " " + okT + ")"})
+			if fields != nil {
+				okA := app(okN)
+				e.assert(&Term{S: fmt.Sprintf("(=> %s (= %s ((_ zero_extend 32) %s)))", okA, app(nsN), fields["nsec"])})
+				e.declUF("tm_year", "((_ BitVec 64)) (_ BitVec 64)")
+				lsec := app(secN)
+				if lo.signed() != 0 {
+					lsec = "(bvadd " + lsec + " " + bvLit(uint64(lo.signed()), 64) + ")"
+				}
+				e.assert(&Term{S: fmt.Sprintf("(=> %s (= (tm_year %s) ((_ zero_extend 32) %s)))", okA, lsec, fields["year"])})
+				z := time.Unix(-62135596800+lo.signed(), 0).UTC()
+				isz := fmt.Sprintf("(and (= %s %s) (= %s %s) (= %s %s) (= %s %s) (= %s %s) (= %s %s))",
+					fields["year"], c32(z.Year()), fields["month"], c32(int(z.Month())), fields["day"], c32(z.Day()),
+					fields["hour"], c32(z.Hour()), fields["min"], c32(z.Minute()), fields["sec"], c32(z.Second()))
+				e.assert(&Term{S: fmt.Sprintf("(=> %s (= (= %s %s) %s))", okA, app(secN), zeroTimeV.Sec.term().S, isz)})
+			}
+		}
 		if !e.branch(&Term{S: app(okN)}) {
 			return tuple{zeroTimeV, e.newError("parsing time: cannot parse", nil)}
 		}
 		ns := Int{W: 64, S: true, T: &Term{S: app(nsN)}}
 		e.assert(&Term{S: fmt.Sprintf("(and (bvsge %s %s) (bvslt %s %s))", ns.T.S, bvLit(0, 64), ns.T.S, bvLit(nsPerSec, 64))})
-		return tuple{TimeV{Sec: Int{W: 64, S: true, T: &Term{S: app(secN)}}, Nsec: ns}, iface{}}
+		rl := locV
+		if layoutHasZone(layout) {
+			// the value may carry its own zone: the result's offset is a
+			// function of the value as well
+			e.declUF(offN, sig+" (_ BitVec 64)")
+			e.ufApps = append(e.ufApps, ufApp{term: app(offN), args: as, eval: func(vals []string) (string, bool) {
+				t, err := time.ParseInLocation(layout, bytesOf(vals), nloc)
+				if err != nil {
+					return "", false
+				}
+				_, zoff := t.Zone()
+				return bvLit(uint64(int64(zoff)), 64), true
+			}})
+			c := new(value)
+			*c = locObj{Off: Int{W: 64, S: true, T: &Term{S: app(offN)}}}
+			rl = c
+		}
+		return tuple{TimeV{Sec: Int{W: 64, S: true, T: &Term{S: app(secN)}}, Nsec: ns, Loc: rl}, iface{}}
 	}
 	stubs["time.Parse"] = parse
 	stubs["time.ParseInLocation"] = parse
+	stubs["time.FixedZone"] = func(e *Exec, fn *ssa.Function, args []value) value {
+		c := new(value)
+		*c = locObj{Off: i64(args[1].(Int))}
+		return c
+	}
 
 	stubs["(time.Time).Year"] = func(e *Exec, fn *ssa.Function, args []value) value {
-		sec, nsec := args[0].(TimeV).secNsec()
-		if sec.isConc() && nsec.isConc() {
-			return mkI64(int64(time.Unix(sec.signed(), nsec.signed()).UTC().Year()))
+		tv := args[0].(TimeV)
+		sec := tv.localSec()
+		if sec.isConc() {
+			return mkI64(int64(time.Unix(sec.signed(), 0).UTC().Year()))
 		}
 		e.declUF("tm_year", "((_ BitVec 64)) (_ BitVec 64)")
 		t := "(tm_year " + sec.term().S + ")"
@@ -107,10 +219,12 @@ func init() {
 	stubs["(time.Time).AddDate"] = func(e *Exec, fn *ssa.Function, args []value) value {
 		tv := args[0].(TimeV)
 		y, m, d := args[1].(Int), args[2].(Int), args[3].(Int)
-		sec, nsec := tv.secNsec()
-		if sec.isConc() && nsec.isConc() && y.isConc() && m.isConc() && d.isConc() {
+		_, nsec := tv.secNsec()
+		sec := tv.localSec()
+		off := locOffset(tv.Loc)
+		if sec.isConc() && nsec.isConc() && y.isConc() && m.isConc() && d.isConc() && off.isConc() {
 			r := time.Unix(sec.signed(), nsec.signed()).UTC().AddDate(int(y.signed()), int(m.signed()), int(d.signed()))
-			return TimeV{Sec: mkI64(r.Unix()), Nsec: mkI64(int64(r.Nanosecond())), Loc: tv.Loc}
+			return TimeV{Sec: mkI64(r.Unix() - off.signed()), Nsec: mkI64(int64(r.Nanosecond())), Loc: tv.Loc}
 		}
 		if !m.isConc() || !d.isConc() || m.signed() != 0 || d.signed() != 0 {
 			panic(inconclusive{"Time.AddDate with symbolic months/days"})
@@ -121,6 +235,10 @@ func init() {
 			r := time.Unix(int64(parseBV(vals[0])), 0).UTC().AddDate(int(int64(parseBV(vals[1]))), 0, 0)
 			return bvLit(uint64(r.Unix()), 64), true
 		}})
-		return TimeV{Sec: Int{W: 64, S: true, T: &Term{S: t}}, Nsec: nsec, Loc: tv.Loc}
+		rs := Int{W: 64, S: true, T: &Term{S: t}}
+		if !(off.isConc() && off.signed() == 0) {
+			rs = intBinop(token.SUB, rs, off).(Int)
+		}
+		return TimeV{Sec: rs, Nsec: nsec, Loc: tv.Loc}
 	}
 }
